@@ -46,9 +46,10 @@ register(
     "C10",
     "Structural conditions for 'editor buffers win over the background scan': (R3e) document-synchronisation handlers "
     "reach the analysis entry only with cleaning enabled; (R3e2) no task spawned from a handler runs the non-cleaning "
-    "analysis, which could run in parallel with did_open/did_change. Which content wins for each timing is a schedule "
+    "analysis, which could run in parallel with did_open/did_change; (R3g) the cleaning analysis is never fed text read "
+    "directly from disk. Which content wins for each timing is a schedule "
     "property and is not decided.",
-    [r3.r3e_who_skips_cleaning, r3.r3e2_parallel_scan],
+    [r3.r3e_who_skips_cleaning, r3.r3e2_parallel_scan, r3.r3g_buffer_content],
 )
 
 register(
